@@ -12,6 +12,9 @@ versions are loaded by one *session*: the way ``griffe check`` loads (which pull
 afterwards, while resolving aliases) or step by step over several packages, with consumer reads of
 the tree between the steps - results derived from the tree before a later package entered the
 collection must not survive it.
+Modules may compose their ``__all__`` from other modules' ``__all__`` (every spelling the extractor
+parses); the surface model computes the effective ``__all__`` the way Python does (validated
+against CPython imports of the generated packages while building).
 Oracle: a *public-surface model* computed from the generator's structure (never from
 ``is_public``) and the packages the session loads gives the public paths of every object;
 incompatible edits on an object with >= 1 public path must yield a breakage of the expected kind on
@@ -39,7 +42,13 @@ RULE = ("structured package pk (modules pk, pk.core, pk._impl, pk.sub, pk.sub.mo
         "re-exporting __init__ hop, under an alias, or known through `from _pk import *` only; own members may override inherited "
         "ones) and objects pk re-exports (explicitly or by wildcard, listed in __all__ or not) x edit script of 1-4 edits from the "
         "catalogue {add public object, add optional keyword parameter, change private object, add base, reorder, add module | remove "
-        "object, change kind, remove base, change attribute value} at random public/private locations in any of the packages; optional "
+        "object, change kind, remove base, change attribute value, drop a re-export (one import, or everything taken from one module by "
+        "wildcard / composed __all__) while the object stays} at random public/private locations in any of the packages; __all__ lists "
+        "composed from other modules' __all__ - forms `[.., *x]`, `(.., *x)`, annotated, `[..] + x`, `x + [..]`, `+=`; the other list "
+        "referred to as an imported name (absolute / relative import), `mod.__all__` (from-import or import-as of the module) or "
+        "`pk.mod.__all__` - from a private (pk._impl) and a public (pk.core) source, chained or not, each consumed by 1-3 modules among "
+        "the root, existing submodules and new public / private modules sorting before and after the sources, with the listed objects "
+        "brought in by wildcard or one by one; optional "
         "dangling or cyclic re-export injected in both versions x loading session applied to both versions: the way `griffe check` "
         "loads (load pk, resolve aliases with external=None, which pulls in _pk afterwards when an exported alias or a wildcard leads "
         "there) or a loader session over a drawn subset/order of the packages with consumer reads of the whole tree and alias "
@@ -63,12 +72,17 @@ REQUIRED_COUNTERS = ["pairs_diffed", "identical_pairs_silent", "compatible_scrip
                      "edits_behind_reexport_or_inheritance", "private_sibling_entered_collection_after_package",
                      "inherited_from_late_loaded_package_edits_reported", "sibling_package_reexport_edits_reported",
                      "edits_behind_wildcard_import_from_sibling_reported", "cli_cases_with_sibling_package",
-                     "tree_reads_between_loading_steps"]
+                     "tree_reads_between_loading_steps", "edits_public_only_through_composed_all_reported",
+                     "composed_all_in_non_root_module_edits_reported", "composed_all_from_shared_source_edits_reported",
+                     "cli_cases_with_composed_all"]
 EXHAUSTIVE = {"quick": False, "thorough": False}
 ASSUMPTIONS = ["attribute values and parameter lists are simple literals so that C03/C10 findings cannot surface here",
                "a module with a wildcard import declares a non-empty __all__ (whether names only a wildcard brings in are public without "
-               "__all__ is not settled by the documented rules); wildcard imports come from a sibling package's __init__ only and are the "
-               "first statement of the module (expansion order is C05's subject)",
+               "__all__ is not settled by the documented rules); wildcard imports come from a sibling package's __init__ or from the module "
+               "whose __all__ the importing module composes its own from, and are the first statements of the module (names are unique, so "
+               "expansion order - C05's subject - cannot matter)",
+               "__all__ is composed only from modules of pk itself and only in the spellings the extractor parses (no calls such as "
+               "list(x)); composing from the sibling package's __all__ is not generated (see report: dropped when the sibling is loaded later)",
                "pairs in which the edit changes which packages the session loads (the last exported name leading into _pk is removed) "
                "are not judged",
                "no package is loaded twice in a session (reloading is C18's subject)"]
@@ -86,9 +100,39 @@ def top_of(mod: str) -> str:
     return mod.split(".", 1)[0]
 
 
-def gen_model(rng: random.Random, siblings: bool | None = None) -> dict:  # noqa: C901, PLR0912, PLR0915
+ALL_FORMS = ["star", "plus", "plus_rev", "aug", "tuple", "ann"]  # how the module writes its composed __all__
+# how a term refers to the other module's __all__ (attr_hop: `m.__all__` where m is imported from a third module that imported it)
+ALL_REFS = ["name", "relative", "attr_from", "attr_import_as", "attr_import", "attr_hop"]
+
+
+def import_reaches(mods: dict, start: str, goal: str) -> bool:
+    """Executing module ``start`` makes Python execute ``goal`` (imports of every spelling, parent packages first)."""
+    def needs(mod: str) -> set[str]:
+        m = mods[mod]
+        out = {i[0] for i in m["imports"]} | set(m.get("wild", []))
+        out |= {c["src"] for c in m.get("compose", [])} | {c["hop"] for c in m.get("compose", []) if c.get("hop")}
+        out |= {c["src"] for m2 in mods.values() for c in m2.get("compose", []) if c.get("hop") == mod}
+        for x in list(out) + [mod]:
+            while "." in x:
+                x = x.rsplit(".", 1)[0]
+                if x != "pk":
+                    out.add(x)
+        return {x for x in out if x in mods and x != mod}
+    seen, stack = set(), [start]
+    while stack:
+        cur = stack.pop()
+        if cur == goal:
+            return True
+        if cur not in seen:
+            seen.add(cur)
+            stack.extend(needs(cur))
+    return False
+
+
+def gen_model(rng: random.Random, siblings: bool | None = None, compose: bool | None = None) -> dict:  # noqa: C901, PLR0912, PLR0915
     """``siblings``: None = drawn, True = the private sibling top-level package is present and linked by an exported
-    re-export, False = single-package model."""
+    re-export, False = single-package model. ``compose``: None = drawn, True = some modules build their ``__all__`` from
+    other modules' ``__all__``."""
     mods: dict[str, dict] = {}
     counter = [0]
 
@@ -239,6 +283,54 @@ def gen_model(rng: random.Random, siblings: bool | None = None) -> dict:  # noqa
     extra = rng.choice([None, None, "dangling", "cyclic"])
     if extra and mods["pk"]["all"] is not None:
         mods["pk"]["all"].append("ghost" if extra == "dangling" else "loop_a")  # the broken re-export is exported
+
+    # __all__ lists composed from other modules' __all__ (`[..., *other_all]`, `+ other.__all__`, `+=` ...): a private
+    # (pk._impl) and a public (pk.core) source module, possibly chained, each consumed by 1-3 modules - the root, existing
+    # submodules, new modules whose names sort before / after the sources - that bring the listed objects in by a wildcard
+    # import or one by one. The composed entries are what makes those objects public in the consumer.
+    if (rng.random() < 0.55) if compose is None else compose:
+        model = {"mods": mods}
+        if mods["pk._impl"]["all"] is None and (compose or rng.random() < 0.75):
+            names = [o["name"] for o in impl]
+            mods["pk._impl"]["all"] = [n for n in names if rng.random() < 0.75] or [names[0]]
+        sources = [src for src in ("pk._impl", "pk.core") if mods[src]["all"]]
+
+        def consume(cons: str, src: str) -> None:
+            cm = mods[cons]
+            if cm["all"] is None:
+                cm["all"] = [o["name"] for o in cm["objs"] if rng.random() < 0.8]
+            if not cm["all"]:  # at least one literal entry of its own
+                if not cm["objs"]:
+                    cm["objs"].append(new_obj(fresh("own"), "func"))
+                cm["all"].append(cm["objs"][0]["name"])
+            entry = {"src": src, "ref": rng.choice(ALL_REFS)}
+            if entry["ref"] == "attr_hop":
+                entry["hop"] = rng.choice([h for h in ("pk", "pk.sub", "pk.sub.mod") if h not in (cons, src)])
+            cm.setdefault("compose", []).append(entry)
+            # (a module whose own __all__ is consumed in turn keeps it a list: `[...] + a_tuple` is a TypeError at run time)
+            cm.setdefault("form", rng.choice([f for f in ALL_FORMS if f != "tuple" or cons not in ("pk.core", "pk._impl")]))
+            if rng.random() < 0.6:
+                cm.setdefault("wild", []).append(src)
+            else:
+                have = {o["name"] for o in cm["objs"]} | {i[2] or i[1] for i in imports_of(model, cons)}
+                cm["imports"].extend((src, n, None) for n in eff_all(model, src) or [] if n not in have)
+
+        if len(sources) == 2 and rng.random() < 0.3:
+            consume("pk.core", "pk._impl")  # a chain: pk.core's own __all__ is composed, and consumed in turn
+        for src in sources:
+            pool = ["pk", "pk.sub", "pk.sub.mod", "pk.aapi", "pk.api", "pk.zapi", "pk._api"]
+            for cons in rng.sample(pool, rng.choice([1, 2, 2, 3])):
+                if cons not in mods:
+                    mods[cons] = {"objs": gen_objs(rng.randint(1, 2), 0.2), "imports": [], "all": None}
+                if not any(c["src"] == src for c in mods[cons].get("compose", [])):
+                    consume(cons, src)
+        # a module reached through a third one (attr_hop) must stay importable: the third module (or its parent package,
+        # which runs first) must not need, directly or not, the module that is in the middle of importing it
+        for cons, cm in mods.items():
+            for entry in cm.get("compose", []):
+                if entry.get("hop") and import_reaches(mods, entry["hop"], cons):
+                    entry["ref"] = "attr_from"
+                    del entry["hop"]
     return {"mods": mods, "extra": extra}
 
 
@@ -253,11 +345,54 @@ def render_obj(o: dict, indent: str = "") -> str:
     return head + body
 
 
+def all_term(mod: str, c: dict, k: int, pkgs: set[str]) -> tuple[str, str]:
+    """(import statement, expression) by which module ``mod`` refers to the ``__all__`` of ``c['src']``."""
+    src, ref = c["src"], c["ref"]
+    parent, _, leaf = src.rpartition(".")
+    if ref == "name":
+        return f"from {src} import __all__ as _all{k}\n", f"_all{k}"
+    if ref == "relative":
+        base = mod if mod in pkgs else mod.rsplit(".", 1)[0]
+        level = 1
+        while not src.startswith(base + "."):
+            base = base.rsplit(".", 1)[0]
+            level += 1
+        return f"from {'.' * level}{src[len(base) + 1:]} import __all__ as _all{k}\n", f"_all{k}"
+    if ref == "attr_from":
+        return f"from {parent} import {leaf} as _mod{k}\n", f"_mod{k}.__all__"
+    if ref == "attr_hop":
+        return f"from {c['hop']} import _hop_{leaf} as _mod{k}\n", f"_mod{k}.__all__"
+    if ref == "attr_import_as":
+        return f"import {src} as _mod{k}\n", f"_mod{k}.__all__"
+    return f"import {src}\n", f"{src}.__all__"
+
+
+def render_all(lits: list[str], terms: list[str], form: str | None) -> str:
+    if not terms:
+        return f"__all__ = {lits!r}\n"
+    items = [repr(x) for x in lits]
+    if form == "star":
+        return "__all__ = [" + ", ".join(items + ["*" + t for t in terms]) + "]\n"
+    if form == "tuple":
+        return "__all__ = (" + "".join(x + ", " for x in ["*" + t for t in terms[:1]] + items + ["*" + t for t in terms[1:]]) + ")\n"
+    if form == "ann":
+        return "__all__: list[str] = [" + ", ".join(["*" + t for t in terms] + items) + "]\n"
+    if form == "plus":
+        return "__all__ = " + " + ".join([repr(lits), *terms]) + "\n"
+    if form == "plus_rev":
+        return "__all__ = " + " + ".join([*terms, repr(lits)]) + "\n"
+    return f"__all__ = {lits!r}\n" + "".join(f"__all__ += {t}\n" for t in terms)  # aug
+
+
 def render(model: dict) -> dict[str, str]:
     files = {}
     pkgs = {"pk", "pk.sub"} | {top_of(m) for m in model["mods"]} | {m for m in model["mods"] if any(x.startswith(m + ".") for x in model["mods"])}
     for mod, m in model["mods"].items():
-        src = "".join(f"from {w} import *\n" for w in m.get("wild", []))
+        # modules that other modules reach this one's neighbours through (`from <here> import _hop_x as m; m.__all__`); first
+        # lines of the module, so that the name exists however the imports of the package interleave at run time
+        hops = sorted({c["src"] for m2 in model["mods"].values() for c in m2.get("compose", []) if c.get("hop") == mod})
+        src = "".join(f"from {h.rpartition('.')[0]} import {h.rpartition('.')[2]} as _hop_{h.rpartition('.')[2]}\n" for h in hops)
+        src += "".join(f"from {w} import *\n" for w in m.get("wild", []))
         for frm, name, asname in m["imports"]:
             src += f"from {frm} import {name}" + (f" as {asname}" if asname else "") + "\n"
         if mod == "pk" and model.get("extra") == "dangling":
@@ -266,10 +401,15 @@ def render(model: dict) -> dict[str, str]:
             src += "from pk.core import loop_a\n"
         if mod == "pk.core" and model.get("extra") == "cyclic":
             src += "from pk import loop_a\n"
+        terms = []
+        for k, c in enumerate(m.get("compose", [])):
+            line, term = all_term(mod, c, k, pkgs)
+            src += line
+            terms.append(term)
         for o in m["objs"]:
             src += render_obj(o)
         if m["all"] is not None:
-            src += f"__all__ = {m['all']!r}\n"
+            src += render_all(m["all"], terms, m.get("form"))
         rel = mod.replace(".", "/") + ("/__init__.py" if mod in pkgs else ".py")
         files[rel] = src or "\n"
     return files
@@ -289,18 +429,48 @@ def module_public(model: dict, mod: str) -> bool:
         name = parts[i]
         if not name.startswith("_"):
             continue
-        parent = model["mods"].get(".".join(parts[:i]))
-        if parent and parent["all"]:
-            if name not in parent["all"]:
+        pall = eff_all(model, ".".join(parts[:i]))
+        if pall:
+            if name not in pall:
                 return False
         elif not (name.startswith("__") and name.endswith("__")):
             return False
     return True
 
 
-def name_public(m: dict, name: str, imported: bool) -> bool:
-    if m["all"]:
-        return name in m["all"]
+def eff_all(model: dict, mod: str, _seen: tuple = ()) -> list[str] | None:
+    """The value ``__all__`` has at run time: the literal entries plus, for every composition term (``*other_all``,
+    ``+ other.__all__``, ``+=``), the effective ``__all__`` of the module it comes from. None: no ``__all__`` declared."""
+    m = model["mods"].get(mod)
+    if m is None or m["all"] is None:
+        return None
+    out = list(m["all"])
+    for c in m.get("compose", []):
+        if c["src"] == mod or c["src"] in _seen:
+            continue
+        out += [n for n in (eff_all(model, c["src"], (*_seen, mod)) or []) if n not in out]
+    return out
+
+
+def consumers_of(model: dict, src: str) -> list[str]:
+    return [mod for mod, m in model["mods"].items() if any(c["src"] == src for c in m.get("compose", []))]
+
+
+def explicit_downstream(model: dict, src: str, _seen: tuple = ()) -> bool:
+    """Some module composes its ``__all__`` from ``src``'s (directly or through a chain) but imports the listed objects
+    one by one: a name added to ``src``'s ``__all__`` would be listed there without being importable."""
+    for c in consumers_of(model, src):
+        if c in _seen:
+            continue
+        if src not in model["mods"][c].get("wild", []) or explicit_downstream(model, c, (*_seen, src)):
+            return True
+    return False
+
+
+def name_public(model: dict, mod: str, name: str, imported: bool) -> bool:
+    ea = eff_all(model, mod)
+    if ea:
+        return name in ea
     if name.startswith("_"):
         return False
     return not imported
@@ -310,7 +480,7 @@ def find_obj(model: dict, mod: str, name: str) -> dict | None:
     return next((o for o in model["mods"][mod]["objs"] if o["name"] == name), None)
 
 
-def imports_of(model: dict, mod: str, loaded: set[str] | None = None) -> list[tuple]:
+def imports_of(model: dict, mod: str, loaded: set[str] | None = None, _seen: tuple = ()) -> list[tuple]:
     """The explicit ``from .. import`` statements of ``mod`` followed by the names its wildcard import (rendered as the first
     line of the module, so that explicit imports of the same name win) brings in: what the wildcard-imported module lists in
     ``__all__`` when it declares one, else its names without leading underscore (defined or imported there). A wildcard from
@@ -319,11 +489,13 @@ def imports_of(model: dict, mod: str, loaded: set[str] | None = None) -> list[tu
     out = [tuple(i) for i in m["imports"]]
     for w in m.get("wild", []):
         wm = model["mods"].get(w)
-        if wm is None or (loaded is not None and top_of(w) not in loaded):
+        if wm is None or (loaded is not None and top_of(w) not in loaded) or w == mod or w in _seen:
             continue
-        names = [o["name"] for o in wm["objs"]] + [i[2] or i[1] for i in wm["imports"]]
-        if wm["all"] is not None:
-            names = [n for n in names if n in wm["all"]]
+        # the names of the wildcard-imported module: defined, imported, or brought in by its own wildcard imports
+        names = [o["name"] for o in wm["objs"]] + [i[2] or i[1] for i in imports_of(model, w, loaded, (*_seen, mod))]
+        wall = eff_all(model, w)
+        if wall is not None:
+            names = [n for n in names if n in wall]
         else:
             names = [n for n in names if not n.startswith("_")]
         taken = {i[2] or i[1] for i in out}
@@ -331,12 +503,27 @@ def imports_of(model: dict, mod: str, loaded: set[str] | None = None) -> list[tu
     return out
 
 
+def composed_paths(model: dict) -> list[list]:
+    """[path, consumer is the root module, source shared by several consumers] for every name that is listed in a module's
+    effective ``__all__`` only thanks to a composition term (not literally)."""
+    out = []
+    for mod, m in model["mods"].items():
+        if m["all"] is None or not m.get("compose"):
+            continue
+        for c in m["compose"]:
+            for n in eff_all(model, c["src"]) or []:
+                if n not in m["all"]:
+                    out.append([f"{mod}.{n}", mod == "pk", len(consumers_of(model, c["src"])) > 1])
+    return out
+
+
 def wildcard_only_paths(model: dict, loaded: set[str] | None = None) -> list[str]:
-    """Paths of names a module has through its wildcard import only, and of its classes that name such a base class."""
+    """Paths of names a module has through its wildcard import from a sibling package only, and of its classes that name
+    such a base class."""
     out = []
     for mod, m in model["mods"].items():
         if m.get("wild"):
-            wnames = {i[1] for i in imports_of(model, mod, loaded)[len(m["imports"]):]}
+            wnames = {i[1] for i in imports_of(model, mod, loaded)[len(m["imports"]):] if top_of(i[0]) != "pk"}
             out += [f"{mod}.{n}" for n in sorted(wnames)]
             out += [f"{mod}.{o['name']}" for o in m["objs"] if o["kind"] == "class" and any(b in wnames for b in o["bases"])]
     return out
@@ -387,11 +574,11 @@ def public_paths(model: dict, loaded: set[str] | None = None, unknown: dict | No
     for mod, m in mods.items():
         for o in m["objs"]:
             s = top_paths.setdefault((mod, o["name"]), set())
-            if module_public(model, mod) and name_public(m, o["name"], imported=False):
+            if module_public(model, mod) and name_public(model, mod, o["name"], imported=False):
                 s.add(f"{mod}.{o['name']}")
     for mod, m in mods.items():
         for _frm, name, asname in imports_of(model, mod, loaded):
-            if not (module_public(model, mod) and name_public(m, asname or name, imported=True)):
+            if not (module_public(model, mod) and name_public(model, mod, asname or name, imported=True)):
                 continue
             r = resolve_name(model, mod, asname or name, loaded)
             if r is None:
@@ -444,9 +631,10 @@ def links_private_sibling(model: dict) -> bool:
             continue
         if any(top_of(w) == "_pk" for w in m.get("wild", [])):
             return True  # wildcards are expanded first, loading the private sibling package whatever __all__ says
-        if m["all"]:
+        ea = eff_all(model, mod)
+        if ea:
             for frm, name, asname in m["imports"]:
-                if top_of(frm) == "_pk" and (asname or name) in m["all"]:
+                if top_of(frm) == "_pk" and (asname or name) in ea:
                     return True
     return False
 
@@ -520,7 +708,7 @@ def touch(collection) -> int:  # noqa: ANN001
 
 # -- edits ---------------------------------------------------------------------------------------
 COMPAT = ["add_object", "add_kwarg", "change_private", "add_base", "reorder", "add_module"]
-INCOMPAT = ["remove", "change_kind", "remove_base", "change_value"]
+INCOMPAT = ["remove", "change_kind", "remove_base", "change_value", "drop_reexport"]
 
 
 def all_objects(model: dict):  # noqa: ANN201
@@ -532,11 +720,20 @@ def all_objects(model: dict):  # noqa: ANN201
                     yield mod, o, mem
 
 
-def prefer_hidden(rng: random.Random, cands: list, surface: dict, focus: bool = False):  # noqa: ANN201
+def prefer_hidden(rng: random.Random, cands: list, surface: dict, focus=None):  # noqa: ANN001, ANN201
     """Bias incompatible edits towards objects that are public *only* through a re-export or inheritance
-    (their canonical path is not among their public paths) and towards members of such objects. ``focus``: when there
-    are candidates that live in a sibling top-level package and are public through pk, take one of those."""
-    if focus:
+    (their canonical path is not among their public paths) and towards members of such objects. ``focus``: "sibling" -
+    when there are candidates that live in a sibling top-level package and are public through pk, take one of those; a set
+    of paths - when there are candidates all of whose public paths are among / below those paths (names that only a
+    composed ``__all__`` makes public), take one of those."""
+    if focus and focus != "sibling":
+        def only_there(c):  # noqa: ANN001, ANN202
+            paths = surface.get(canon(*c))
+            return bool(paths) and all(any(p == w or p.startswith(w + ".") for w in focus) for p in paths)
+        comp = [c for c in cands if only_there(c)]
+        if comp:
+            return rng.choice(comp)
+    if focus == "sibling":
         sib = [c for c in cands if top_of(c[0]) != "pk" and surface.get(canon(*c))]
         members = [c for c in sib if c[1] is not None]  # members of sibling classes: public through re-exported or inheriting pk classes
         if members and rng.random() < 0.6:
@@ -555,7 +752,7 @@ def prefer_hidden(rng: random.Random, cands: list, surface: dict, focus: bool = 
     return rng.choice(cands)
 
 
-def apply_edit(rng: random.Random, old: dict, new: dict, kind: str, surface: dict, focus: bool = False) -> dict | None:  # noqa: C901, PLR0911, PLR0912
+def apply_edit(rng: random.Random, old: dict, new: dict, kind: str, surface: dict, focus=None) -> dict | None:  # noqa: ANN001  # noqa: C901, PLR0911, PLR0912
     """Mutates ``new``; returns an expectation record or None when not applicable."""
     objs = list(all_objects(new))
     if kind == "add_object":
@@ -564,7 +761,8 @@ def apply_edit(rng: random.Random, old: dict, new: dict, kind: str, surface: dic
         new["mods"][mod]["objs"].append(new_obj(name, rng.choice(["func", "attr", "class"])))
         # an *empty* __all__ declares nothing (names decide): giving it a first entry would un-publish every other
         # object of the module, which is no compatible edit - only a non-empty __all__ is extended
-        if new["mods"][mod]["all"] and rng.random() < 0.7:
+        # (nor is a name added to an __all__ that another module composes its own from while importing the objects one by one)
+        if eff_all(new, mod) and rng.random() < 0.7 and not explicit_downstream(new, mod):
             new["mods"][mod]["all"].append(name)
         return {"edit": kind, "where": f"{mod}.{name}", "expect": None}
     if kind == "add_kwarg":
@@ -658,6 +856,31 @@ def apply_edit(rng: random.Random, old: dict, new: dict, kind: str, surface: dic
         m, c, o = prefer_hidden(rng, cands, surface, focus)
         o["value"] = str(int(o["value"]) + 10)
         return {"edit": kind, "where": canon(m, c, o), "expect": "Attribute value was changed"}
+    if kind == "drop_reexport":
+        # a module of pk stops re-exporting - one explicit import, or everything it takes from one module by wildcard import
+        # and / or composed __all__ - while the objects stay where they are defined (and public elsewhere, if they were)
+        cands = []
+        for mod, mm in new["mods"].items():
+            if top_of(mod) != "pk":
+                continue
+            bulk = sorted(set(mm.get("wild", [])) | {c["src"] for c in mm.get("compose", [])})
+            cands += [(mod, "bulk", w) for w in bulk]
+            cands += [(mod, "import", tuple(i)) for i in mm["imports"] if i[0] not in bulk]
+        if not cands:
+            return None
+        pick = [c for c in cands if c[1] == "bulk" and any(x["src"] == c[2] for x in new["mods"][c[0]].get("compose", []))]
+        mod, how, what = rng.choice(pick) if pick and focus and focus != "sibling" else rng.choice(cands)
+        mm = new["mods"][mod]
+        before = {i[2] or i[1] for i in imports_of(new, mod)}
+        if how == "import":
+            mm["imports"] = [i for i in mm["imports"] if tuple(i) != what]
+        else:
+            mm["wild"] = [w for w in mm.get("wild", []) if w != what]
+            mm["compose"] = [c for c in mm.get("compose", []) if c["src"] != what]
+            mm["imports"] = [i for i in mm["imports"] if i[0] != what]
+        for n in sorted(before - {i[2] or i[1] for i in imports_of(new, mod)}):
+            drop_name(new, mod, n)
+        return {"edit": kind, "where": mod, "prefix": mod, "expect": "Public object was removed"}
     return None
 
 
@@ -675,8 +898,9 @@ def drop_name(model: dict, mod: str, name: str) -> None:
             if imp[0] == mod and imp[1] == name and imp in m2["imports"]:
                 m2["imports"].remove(imp)
                 drop_name(model, mod2, imp[2] or imp[1])
-        if mod in m2.get("wild", []) and not any((i[2] or i[1]) == name for i in m2["imports"]) and not find_obj(model, mod2, name):
-            drop_name(model, mod2, name)  # the wildcard import no longer brings the name in
+        if (mod in m2.get("wild", []) and not find_obj(model, mod2, name)
+                and not any((i[2] or i[1]) == name for i in imports_of(model, mod2))):
+            drop_name(model, mod2, name)  # no wildcard (or other) import brings the name in any more
 
 
 def canon(mod: str, cls: dict | None, o: dict) -> str:
@@ -818,6 +1042,8 @@ def judge(rec, case: dict, rows: list[dict], info: dict) -> tuple | None:  # noq
             rec.count("pairs_with_reexport_into_unloaded_package")
         if case.get("wild_paths"):
             rec.count("pairs_with_wildcard_import_from_loaded_sibling")
+        if case.get("composed_paths"):
+            rec.count("pairs_with_composed_all")
     by_obj: dict[tuple[str, str], list[dict]] = {}
     for d in demanded:
         by_obj.setdefault((d["canonical"], d["kind"]), []).append(d)
@@ -841,6 +1067,14 @@ def judge(rec, case: dict, rows: list[dict], info: dict) -> tuple | None:  # noq
                 rec.count("inherited_from_late_loaded_package_edits_reported")
             if any(d["path"] == w or d["path"].startswith(w + ".") for d in ds for w in case.get("wild_paths") or ()):
                 rec.count("edits_behind_wildcard_import_from_sibling_reported")
+        comp = [[c for c in case.get("composed_paths") or () if d["path"] == c[0] or d["path"].startswith(c[0] + ".")] for d in ds]
+        if hit and all(comp):
+            # every public path of the object exists only because a composed __all__ lists the name
+            rec.count("edits_public_only_through_composed_all_reported")
+            if any(not c[1] for cs in comp for c in cs):
+                rec.count("composed_all_in_non_root_module_edits_reported")
+            if any(c[2] for cs in comp for c in cs):
+                rec.count("composed_all_from_shared_source_edits_reported")
         if not hit:
             return (f"public object {canonical} ({kind}) changed on public path(s) {sorted(d['path'] for d in ds)} but no such breakage is reported",
                     rows, ds)
@@ -853,12 +1087,13 @@ def judge(rec, case: dict, rows: list[dict], info: dict) -> tuple | None:  # noq
                 modpath = r["path"][: -len(".__all__")]
                 rel = modpath.replace(".", "/")
                 src = case["old"].get(rel + "/__init__.py", case["old"].get(rel + ".py", ""))
-                if "__all__ = []" in src:
+                if "\n__all__ = []\n" in "\n" + src:
                     fid = "C11-empty-all-is-itself-public"
             return (f"breakage '{r['kind']}' on {r['path']} does not correspond to any difference between the public surfaces "
                     "(private / imported-not-exported object, or nothing changed there)", rows, allowed, fid)
     for e in expectations:
-        if e["expect"] and not any(d["canonical"].startswith(e["where"]) or e["where"].startswith(d["canonical"]) for d in allowed):
+        if e["expect"] and not any(d["canonical"].startswith(e["where"]) or e["where"].startswith(d["canonical"])
+                                   or d["path"].startswith(e.get("prefix", "\0") + ".") for d in allowed):
             rec.count("incompatible_private_edits_silent")
     return None
 
@@ -903,17 +1138,20 @@ def cli_exit(old_files: dict, new_files: dict) -> tuple[int, int, str]:
         shutil.rmtree(root, ignore_errors=True)
 
 
-def run_case(rec, old_model: dict, script: list[str], rng: random.Random, with_cli: bool, focus: bool = False) -> None:  # noqa: ANN001
+def run_case(rec, old_model: dict, script: list[str], rng: random.Random, with_cli: bool, focus: str | None = None) -> None:  # noqa: ANN001
     new_model = copy.deepcopy(old_model)
     paths_old = public_paths(old_model)  # what Python itself sees, every sibling package present
     expectations = []
+    composed = composed_paths(old_model)
+    if focus == "composed":
+        focus = {c[0] for c in composed}  # type: ignore[assignment]
     for kind in script:
         e = apply_edit(rng, old_model, new_model, kind, paths_old, focus=focus)
         if e:
             expectations.append(e)
     fix_class_order(new_model)
     fix_class_order(old_model)
-    if any(m.get("wild") and not m["all"] for mdl in (old_model, new_model) for m in mdl["mods"].values()):
+    if any(m.get("wild") and not eff_all(mdl, mod) for mdl in (old_model, new_model) for mod, m in mdl["mods"].items()):
         rec.skip("wildcard import in a module whose __all__ became empty (publicness of wildcard-imported names not settled)")
         return
     session = copy.deepcopy(CLI_SESSION) if with_cli else gen_session(rng, old_model)
@@ -926,7 +1164,8 @@ def run_case(rec, old_model: dict, script: list[str], rng: random.Random, with_c
     old_files, new_files = render(old_model), render(new_model)
     case = {"old": old_files, "new": new_files, "expectations": expectations, "session": session, "loaded": loaded,
             "old_surface": surface(old_model, loaded), "new_surface": surface(new_model, loaded),
-            "old_full": surface(old_model), "new_full": surface(new_model), "wild_paths": wildcard_only_paths(old_model, set(loaded))}
+            "old_full": surface(old_model), "new_full": surface(new_model), "wild_paths": wildcard_only_paths(old_model, set(loaded)),
+            "composed_paths": composed}
     judge_case(rec, case, with_cli)
 
 
@@ -955,6 +1194,8 @@ def judge_case(rec, case: dict, with_cli: bool) -> None:  # noqa: ANN001, C901
                 rec.count("cli_exit_codes_compared")
                 if len(info["old_tops"]) > 1:
                     rec.count("cli_cases_with_sibling_package")
+                if case.get("composed_paths"):
+                    rec.count("cli_cases_with_composed_all")
                 # against the reference model: non-zero when a difference is demanded, zero when none is even allowed
                 wants = {1 if demanded else 0, 1 if allowed else 0}
                 cres = None
@@ -983,17 +1224,18 @@ def judge_case(rec, case: dict, with_cli: bool) -> None:  # noqa: ANN001, C901
 
 def shards(tier: str, seed: int) -> list[dict]:
     n = 110 if tier == "quick" else 900
-    return [{"count": n, "cli": 3 if tier == "quick" else 9} for _ in range(16)]
+    return [{"count": n, "cli": 4 if tier == "quick" else 12} for _ in range(16)]
 
 
 def run_shard(spec: dict, rec) -> None:  # noqa: ANN001
     rng = random.Random(spec["seed"])
     for i in range(spec["count"]):
         with_cli = i < spec["cli"]
-        # two of three CLI cases have the private sibling package linked by an exported re-export (what makes `griffe check`
-        # pull it in), and edit an object pk only has from there
-        force = with_cli and i % 3 != 2
-        model = gen_model(rng, siblings=True if force else None)
+        # of four CLI cases, two have the private sibling package linked by an exported re-export (what makes `griffe check`
+        # pull it in) and edit an object pk only has from there; one has composed __all__ lists and edits an object that
+        # only such a list makes public
+        force = ("sibling" if i % 4 < 2 else "composed" if i % 4 == 2 else None) if with_cli else None
+        model = gen_model(rng, siblings=True if force == "sibling" else None, compose=True if force == "composed" else None)
         r = rng.random()
         if r < 0.12 and not force:
             script: list[str] = []
@@ -1005,7 +1247,8 @@ def run_shard(spec: dict, rec) -> None:  # noqa: ANN001
             # one incompatible edit per script keeps expectations independent of each other
             inc = [k for k in script if k in INCOMPAT][:1]
             script = [k for k in script if k in COMPAT] + inc
-        run_case(rec, model, script, rng, with_cli=with_cli, focus=force or rng.random() < 0.25)
+        r = rng.random()
+        run_case(rec, model, script, rng, with_cli=with_cli, focus=force or ("sibling" if r < 0.2 else "composed" if r < 0.5 else None))
 
 
 def legacy_case(inp: dict) -> dict:
